@@ -43,6 +43,8 @@ func c10(r *core.Run) {
 
 	c11CacheCoherence(r, "B1", "store/badgerstore")
 	r.Rule("G2", "events only for committed changes (shared with C11.C1): the badgerstore mutations call their change listeners after the transaction returned successfully, never inside the transaction closure; the store handler turns every notification into events, so a notification sent before a commit that then fails (conflict) publishes events for a value that is not stored - and a retried update publishes them twice", 3)
+	r.Rule("I1", "seeding announces what it wrote: every change notification Store.Init sends is for an entry whose value it has just written - sent right after the write, or taken from a map that is filled only after the entry's write succeeded; Init skips entries whose key already exists, and a notification for those makes the store handler publish a create (or a diff against the default) for a resource that did not change", 1)
+	c10InitAnnouncesWritten(r, "I1", "store/badgerstore")
 	c11FanoutAfterCommit(r, "G2", "store/badgerstore")
 	r.Rule("P1", "events are addressed to the registered resource (shared with C06.R11): the store handler learns its pattern from OnRegister, which for handlers added before the mux is attached comes from the registration-time traversal of the trie; that traversal must rebind the mount index at mount points like the matcher does, otherwise a handler below a nested mount is told a pattern with its placeholder on the wrong token, IDToRID yields an id no handler matches, and every change event for the resource is dropped", 2)
 	if ro := resolveMuxRolesFor(r, "P1"); ro != nil {
